@@ -23,31 +23,72 @@ From Verif Require Import Base.Prelude Model.C11 Model.C12.
 
 (** * The reader below *)
 Inductive endk := EndEOF | EndChecksum | EndUnexpected.
-Record ustream := { u_rem : bytes; u_end : endk; u_eager : bool }.
+(** [u_stall]: how many times the reader answers (0, nil) once its bytes are exhausted before
+    it returns its end-of-stream error (legal but discouraged io.Reader behaviour). *)
+Record ustream := { u_rem : bytes; u_end : endk; u_eager : bool; u_stall : nat }.
+
+(** what a Read returns besides the bytes: nil ([None]), the wrapped reader's end-of-stream
+    error, or io.ErrNoProgress (only produced by the limiter's probe) *)
+Inductive rerr := REnd (k : endk) | RNoProgress.
 
 (** One [Read(p)] with [len(p) = k]; [c] = this call's script entry (delivers at most [S c]
     bytes).  Result: bytes delivered, error ([None] = nil), new state. *)
-Definition u_read (u : ustream) (k c : nat) : bytes * option endk * ustream :=
+Definition u_read (u : ustream) (k c : nat) : bytes * option rerr * ustream :=
   match u_rem u with
-  | [] => ([], Some (u_end u), u)
+  | [] =>
+    match u_stall u with
+    | O => ([], Some (REnd (u_end u)), u)
+    | S s => ([], None, {| u_rem := []; u_end := u_end u; u_eager := u_eager u; u_stall := s |})
+    end
   | _ =>
     let n := Nat.min (Nat.min k (S c)) (length (u_rem u)) in
     let d := firstn n (u_rem u) in
     let r := skipn n (u_rem u) in
     (d,
-     match r with [] => if u_eager u then Some (u_end u) else None | _ => None end,
-     {| u_rem := r; u_end := u_end u; u_eager := u_eager u |})
+     match r, u_stall u with
+     | [], O => if u_eager u then Some (REnd (u_end u)) else None
+     | _, _ => None
+     end,
+     {| u_rem := r; u_end := u_end u; u_eager := u_eager u; u_stall := u_stall u |})
   end.
 
-(** * kit/io LimitedReadCloser *)
+(** * kit/io LimitedReadCloser (as of commit ea653b404e) *)
 Record lrc := { l_n : Z; l_exc : bool }.
 
+(** the probe of Read when the budget is used up:
+      var b [1]byte
+      for i := 0; i < 100; i++ {
+        n, err := l.R.Read(b[:])
+        if n > 0 { l.limitExceeded = true; return 0, io.EOF }
+        if err != nil { return 0, err }
+      }
+      return 0, io.ErrNoProgress                                               *)
+Definition PROBES : nat := 100.
+Fixpoint probe (fuel : nat) (l : lrc) (u : ustream) (c : nat) : option rerr * lrc * ustream :=
+  match fuel with
+  | O => (Some RNoProgress, l, u)
+  | S f =>
+    let '(d, e, u') := u_read u 1 c in
+    match d with
+    | _ :: _ => (Some (REnd EndEOF), {| l_n := l_n l; l_exc := true |}, u')
+    | [] => match e with Some x => (Some x, l, u') | None => probe f l u' c end
+    end
+  end.
+
 (** func (l *LimitedReadCloser) Read(p []byte):
-      if l.N <= 0 { l.limitExceeded = true; return 0, io.EOF }
+      if l.N <= 0 { ... probe ... }
       if int64(len(p)) > l.N { p = p[0:l.N] }
       n, err = l.R.Read(p); l.N -= int64(n)                                  *)
-Definition lrc_read (l : lrc) (u : ustream) (room c : nat) : bytes * option endk * lrc * ustream :=
-  if (l_n l <=? 0)%Z then ([], Some EndEOF, {| l_n := l_n l; l_exc := true |}, u)
+Definition lrc_read (l : lrc) (u : ustream) (room c : nat) : bytes * option rerr * lrc * ustream :=
+  if (l_n l <=? 0)%Z then let '(e, l', u') := probe PROBES l u c in ([], e, l', u')
+  else
+    let k := if (Z.of_nat (S room) >? l_n l)%Z then Z.to_nat (l_n l) else S room in
+    let '(d, e, u') := u_read u k c in
+    (d, e, {| l_n := (l_n l - Z.of_nat (length d))%Z; l_exc := l_exc l |}, u').
+
+(** Read before the fix: the limit was flagged as soon as Read was CALLED with N <= 0 *)
+Definition lrc_read_before_fix (l : lrc) (u : ustream) (room c : nat) : bytes * option rerr * lrc * ustream :=
+  if (l_n l <=? 0)%Z then ([], Some (REnd EndEOF), {| l_n := l_n l; l_exc := true |}, u)
   else
     let k := if (Z.of_nat (S room) >? l_n l)%Z then Z.to_nat (l_n l) else S room in
     let '(d, e, u') := u_read u k c in
@@ -61,30 +102,38 @@ Inductive reader := RPlain (u : ustream) | RLim (l : lrc) (u : ustream).
 Definition batch_reader (limit : Z) (u : ustream) : reader :=
   if (limit >? 0)%Z then RLim {| l_n := limit; l_exc := false |} u else RPlain u.
 
-Definition r_read (r : reader) (room c : nat) : bytes * option endk * reader :=
+Definition r_read (r : reader) (room c : nat) : bytes * option rerr * reader :=
   match r with
   | RPlain u => let '(d, e, u') := u_read u (S room) c in (d, e, RPlain u')
   | RLim l u => let '(d, e, l', u') := lrc_read l u room c in (d, e, RLim l' u')
   end.
+Definition r_read_before_fix (r : reader) (room c : nat) : bytes * option rerr * reader :=
+  match r with
+  | RPlain u => let '(d, e, u') := u_read u (S room) c in (d, e, RPlain u')
+  | RLim l u => let '(d, e, l', u') := lrc_read_before_fix l u room c in (d, e, RLim l' u')
+  end.
 Definition r_close (r : reader) : bool :=
   match r with RPlain _ => false | RLim l _ => lrc_close l end.
-Definition r_rem (r : reader) : bytes :=
-  match r with RPlain u => u_rem u | RLim _ u => u_rem u end.
+Definition r_under (r : reader) : ustream := match r with RPlain u => u | RLim _ u => u end.
+Definition r_rem (r : reader) : bytes := u_rem (r_under r).
 
 (** * io.ReadAll
     [for { n, err := r.Read(b[len(b):cap(b)]); b = b[:len(b)+n]; if err != nil { if err == EOF
     { err = nil }; return b, err } ... grow ... }].  The free room of the buffer ([S room]) and
     the chunk the reader delivers are taken from [script], one pair per call; when the script is
-    used up the remaining calls use a buffer as large as what is left (at most two more calls are
-    ever needed, see [Proofs/C32.v]: [FStuck] is never returned).  Result: the bytes read, the
-    error ([None] = nil) and the final reader state.  [rd] is the reader's Read ([r_read] for
-    the code under test). *)
-Inductive rfail := FChecksum | FUnexpected | FStuck.
-Definition fail_of (e : endk) : option rfail :=
-  match e with EndEOF => None | EndChecksum => Some FChecksum | EndUnexpected => Some FUnexpected end.
+    used up the remaining calls use a buffer as large as what is left (at most [2 + u_stall]
+    more calls are ever needed, see [Proofs/C32.v]: [FStuck] is never returned).  Result: the
+    bytes read, the error ([None] = nil) and the final reader state.  [rd] is the reader's Read
+    ([r_read] for the code under test). *)
+Inductive rfail := FChecksum | FUnexpected | FNoProgress | FStuck.
+Definition fail_of (e : rerr) : option rfail :=
+  match e with
+  | REnd EndEOF => None | REnd EndChecksum => Some FChecksum | REnd EndUnexpected => Some FUnexpected
+  | RNoProgress => Some FNoProgress
+  end.
 
 Section ReadAll.
-  Variable rd : reader -> nat -> nat -> bytes * option endk * reader.
+  Variable rd : reader -> nat -> nat -> bytes * option rerr * reader.
 
   Fixpoint drain_with (fuel : nat) (r : reader) (acc : bytes) : bytes * option rfail * reader :=
     match fuel with
@@ -101,7 +150,7 @@ Section ReadAll.
   Fixpoint read_all_with (script : list (nat * nat)) (r : reader) (acc : bytes)
     : bytes * option rfail * reader :=
     match script with
-    | [] => drain_with 3 r acc
+    | [] => drain_with (3 + u_stall (r_under r)) r acc
     | (room, c) :: s =>
       let '(d, e, r') := rd r room c in
       match e with
@@ -111,6 +160,7 @@ Section ReadAll.
     end.
 End ReadAll.
 Definition read_all := read_all_with r_read.
+Definition read_all_before_fix := read_all_with r_read_before_fix.
 
 (** * http/points readAll + the error mapping of parsePoints
     Close runs in a defer; its ErrReadLimitExceeded (→ ErrMaxBatchSizeExceeded → ETooLarge) is
@@ -120,7 +170,7 @@ Definition read_body (script : list (nat * nat)) (r : reader) : body_res :=
   let '(data, e, r') := read_all script r [] in
   match e with
   | Some FChecksum => BodyInvalid       (* gzip.ErrChecksum / ErrHeader -> EInvalid *)
-  | Some _ => BodyInternal              (* anything else -> EInternal *)
+  | Some _ => BodyInternal              (* anything else (unexpected EOF, io.ErrNoProgress) -> EInternal *)
   | None => if r_close r' then BodyTooLarge else BodyOk data
   end.
 
@@ -196,28 +246,6 @@ Definition handle (script : list (nat * nat)) (q : request) : response :=
     end
   end.
 
-(** * The proposed repair of LimitedReadCloser.Read (not the code under test): when the
-    budget is used up, probe the wrapped reader with a one-byte buffer and flag the limit
-    only if a byte beyond the limit really arrives. *)
-Definition lrc_read_fixed (l : lrc) (u : ustream) (room c : nat) : bytes * option endk * lrc * ustream :=
-  if (l_n l <=? 0)%Z then
-    let '(d, e, u') := u_read u 1 c in
-    match d with
-    | [] => ([], e, l, u')
-    | _ => ([], Some EndEOF, {| l_n := l_n l; l_exc := true |}, u')
-    end
-  else
-    let k := if (Z.of_nat (S room) >? l_n l)%Z then Z.to_nat (l_n l) else S room in
-    let '(d, e, u') := u_read u k c in
-    (d, e, {| l_n := (l_n l - Z.of_nat (length d))%Z; l_exc := l_exc l |}, u').
-
-Definition r_read_fixed (r : reader) (room c : nat) : bytes * option endk * reader :=
-  match r with
-  | RPlain u => let '(d, e, u') := u_read u (S room) c in (d, e, RPlain u')
-  | RLim l u => let '(d, e, l', u') := lrc_read_fixed l u room c in (d, e, RLim l' u')
-  end.
-Definition read_all_fixed := read_all_with r_read_fixed.
-
 (** * The property's oracle (independent of the reader mirror: it looks only at the size of
     the decoded body, at which lines are malformed, and at the writer's answer). *)
 Definition too_large (q : request) : bool :=
@@ -228,7 +256,9 @@ Definition calls_eqb (a b : list (list (bytes * Z))) : bool :=
 Definition optN_eqb := option_eqb N.eqb.
 Definition no_calls (r : response) : bool := match r_calls r with [] => true | _ => false end.
 
-Definition oracle (q : request) (r : response) : bool :=
+(** a reader that answers (0, nil) [PROBES] times in a row is broken (io.ErrNoProgress): the
+    request may be refused, but then nothing is stored *)
+Definition oracle_main (q : request) (r : response) : bool :=
   match precheck q with
   | Some _ => negb (r_status r =? 204)%N && no_calls r
   | None =>
@@ -252,6 +282,10 @@ Definition oracle (q : request) (r : response) : bool :=
     end
   end.
 
+Definition oracle (q : request) (r : response) : bool :=
+  oracle_main q r
+  || (Nat.leb PROBES (u_stall (q_stream q)) && negb (r_status r =? 204)%N && no_calls r).
+
 (** * Correspondence case *)
 Record case := {
   c_auth : bool; c_prec_valid : bool; c_bucket_param : bool; c_gzip_header : bool;
@@ -261,6 +295,7 @@ Record case := {
   c_body : list seg;              (* the DECODED body (run-length compressed) *)
   c_end : N;                      (* 0 EOF, 1 corrupt gzip checksum, 2 truncated gzip *)
   c_eager : option bool;          (* how the reader below signals its end; None = unknown (gzip.Reader) *)
+  c_stall : N;                    (* (0, nil) answers of the scripted reader before its EOF *)
   c_script : list N;              (* chunk sizes the scripted body reader used (minus 1) *)
   c_writer : N; c_wdropped : N;   (* 0 ok, 1 partial(dropped), 2 other error *)
   (* observed on the real handler *)
@@ -275,7 +310,8 @@ Definition request_of (c : case) (eager : bool) : request :=
   {| q_auth := c_auth c; q_prec_valid := c_prec_valid c; q_bucket_param := c_bucket_param c;
      q_gzip_header := c_gzip_header c; q_org_found := c_org_found c; q_bucket_found := c_bucket_found c;
      q_perm := c_perm c; q_prec := prec_of_code (c_prec c); q_limit := c_limit c;
-     q_stream := {| u_rem := expand (c_body c); u_end := endk_of (c_end c); u_eager := eager |};
+     q_stream := {| u_rem := expand (c_body c); u_end := endk_of (c_end c); u_eager := eager;
+                     u_stall := N.to_nat (c_stall c) |};
      q_writer := wres_of (c_writer c) (c_wdropped c) |}.
 
 (** a point without timestamp gets time.Now() in the code and [DFLT] (truncated to the
